@@ -147,7 +147,7 @@ def translate(hist):
             ln = obs["stored_len"] if obs.get("outcome") == "stored" else op["body_len"] + 500
             T.calls[k] = {"rid": rid_num(op["rid"]), "user": op["user"], "len": ln}
             path = unquote_path(op["url"].split("?")[0])
-            user = "(Some %s)" % C.slit(op["user"]) if op["user"] else "None"
+            user = "(Some %s)" % C.slit(op["user"]) if (op["user"] or op.get("federated")) else "None"   # federated: signed in, empty e-mail address
             o = "OUStart %s %s %s %s %s %s %s %s" % (user, C.blit(op["raw"]), C.blit(op["method"] == "GET"), C.slit(op["url"]), C.slit(path), C.zlit(rid_num(op["rid"])), payload(k, ln), flist(fs))
             if obs.get("outcome") == "stored":
                 x = "Stored %s" % C.slit(obs["backend"])
@@ -298,11 +298,11 @@ def oracle_c17(h):
             calls["k%d" % op["k"]] = op["rid"]
             if obs.get("outcome") == "stored":
                 eu = obs.get("backend_enduser")
-                if eu not in (op["user"], "allUsers") or not op["user"]:
+                if eu not in (op["user"], "allUsers") or (not op["user"] and not op.get("federated")) or (op.get("federated") and eu != "allUsers"):
                     res.append(("user-routed-to-foreign-backend", "user %r was routed to backend %r registered for %r" % (op["user"], obs["backend"], eu), _base(h, row)))
                 if obs.get("stored_user") != op["user"]:
                     res.append(("request-stored-under-wrong-user", "request of %r stored with user %r" % (op["user"], obs.get("stored_user")), _base(h, row)))
-            elif not op["user"] and obs.get("status") not in (302, 401):
+            elif not op["user"] and not op.get("federated") and obs.get("status") not in (302, 401):
                 res.append(("anonymous-user-served", "a request without user identity was answered %s" % obs.get("status"), _base(h, row)))
         elif kind in ("alist", "afetch", "arespond"):
             st = obs["status"]
@@ -353,9 +353,12 @@ def oracle_c19(h):
     completed = {}       # k -> row index of the respond answered 200
     delivered = {}       # (user, url) -> set of tags delivered to GETs
     finished = set()
+    tagmeta = {}         # tag -> what the posted response says about caching
     for row in h:
         op, obs = row["op"], row["obs"]
         kind = op["op"]
+        if kind == "arespond":
+            tagmeta[op["tag"]] = {"cc": bool(op.get("cc")), "status": op.get("status")}
         if kind == "ustart":
             k = op["k"]
             calls[k] = row
@@ -369,6 +372,9 @@ def oracle_c19(h):
                 t = int(obs["resp_tag"][1:])
                 if obs.get("hdr_ok") is False:
                     res.append(("client-response-headers-differ", "call %d was answered from the cache with response t%d without all values of its repeated header fields" % (k, t), _base(h, row)))
+                if t in tagmeta and (tagmeta[t]["cc"] or tagmeta[t]["status"] != 200):
+                    res.append(("client-got-foreign-response:answered-from-cache-with-uncacheable-response", "call %d (%s %s) never reached a backend: it was answered at once with response t%d, which was posted for an earlier request and %s" % (
+                        k, op["method"], op["url"], t, "carries Cache-Control" if tagmeta[t]["cc"] else "has status %s" % tagmeta[t]["status"]), _base(h, row)))
                 if op["method"] != "GET" or t not in delivered.get((op["user"], op["url"]), set()) or not obs.get("body_ok"):
                     res.append(("client-got-foreign-response", "call %d of %r for %s %s was answered with response t%d which was never delivered for that user and URL" % (k, op["user"], op["method"], op["url"], t), _base(h, row)))
         elif kind == "afetch" and obs["status"] == 200:
